@@ -21,7 +21,7 @@ def table_expr(table):
 
 
 def dec_params(table, compat=False, maxlabel=99, known=None, gen=True, alphabet=(), maxlen=0, first=None,
-               allow_empty=True, trace=False, extra="", raw=None):
+               allow_empty=True, trace=False, extra="", raw=None, strict=True):
     """Text of a generated DecParams.tla (plain definitions: evaluated once by TLC)."""
     alphabet = list(alphabet)
     first = list(first) if first is not None else alphabet
@@ -34,7 +34,8 @@ def dec_params(table, compat=False, maxlabel=99, known=None, gen=True, alphabet=
              "MaxLen == %d" % maxlen,
              "Input == <<>>",
              "FirstSyms == %s" % tla_set(first),
-             "AllowEmpty == %s" % ("TRUE" if allow_empty else "FALSE")]
+             "AllowEmpty == %s" % ("TRUE" if allow_empty else "FALSE"),
+             "Strict == %s" % ("TRUE" if strict else "FALSE")]
     if raw:
         chars, n, rfirst = raw
         lines += ["RawChars == %s" % tla_set(chars), "RawLen == %d" % n, "RawFirst == %s" % tla_set(rfirst)]
@@ -88,7 +89,7 @@ def partitions(alphabet, nparts):
 def run_decoder_tlc(name, alphabet, table, maxlen, compat=False, maxlabel=99, emit=False,
                     invariants=(), view=False, spec="FastSpec", coverage=False, nparts=None,
                     timeout=3000, properties=(), extends="DecodeCall", emit_name="Emit",
-                    extra_defs="", heap="2g", fastjit=False, raw=None):
+                    extra_defs="", heap="2g", fastjit=False, raw=None, strict=True):
     """Run one configuration, partitioned over parallel single-worker TLC processes.
     Returns (list of TlcResult, vectors)."""
     nparts = nparts or min(NCPU, len(alphabet) if raw is None else len(raw[0]))
@@ -105,7 +106,7 @@ def run_decoder_tlc(name, alphabet, table, maxlen, compat=False, maxlabel=99, em
             f.write(dec_params(table, compat=compat, maxlabel=maxlabel, alphabet=alphabet, maxlen=maxlen,
                                first=(first if raw is None else None), allow_empty=(pi == 0),
                                known=(alphabet if raw is None else []),
-                               raw=(None if raw is None else (raw[0], raw[1], first))))
+                               raw=(None if raw is None else (raw[0], raw[1], first)), strict=strict))
         with open(os.path.join(sub, mod + ".tla"), "w") as f:
             f.write(mc_module(mod, extends=extends, extra_defs=extra_defs))
         cfg = mc_cfg(spec=("CovSpec" if coverage else spec),
@@ -427,3 +428,96 @@ def run_table_space(keypool, cappool, maxkeys, timeout=1200):
                         "alphabet": list(v["alphabet"])})
     r.printed = []
     return r, vectors
+
+
+# --------------------------------------------------------------------------
+# encoder side: recording round trips and validating them (TraceRT.tla)
+# --------------------------------------------------------------------------
+
+def call_encoder(s, strict=True, attribute=False):
+    sf = selfies_mod()
+    try:
+        return ("ok", sf.encoder(s, strict=strict, attribute=attribute), "")
+    except sf.EncoderError as e:
+        msg = str(e)
+        why = ("parse" if "failed to parse" in msg else "kekulize" if "kekulization failed" in msg
+               else "constraints" if "semantic constraints" in msg else "other")
+        return ("EncoderError", "", why)
+    except Exception as e:
+        return (type(e).__name__, "", "")
+
+
+def record_roundtrip(smiles_list, table, strict=True):
+    set_table(table)
+    recs = []
+    try:
+        for smi in smiles_list:
+            kind, sel, why = call_encoder(smi, strict)
+            rec = {"smi": smi, "strict": bool(strict), "kind": kind, "why": why, "sel": "", "dec": "", "reenc": ""}
+            if kind == "ok":
+                rec["sel"] = sel
+                k2, dec = call_decoder(sel)
+                rec["dec"] = dec if k2 == "ok" else "<%s>" % k2
+                if k2 == "ok":
+                    k3, re_, _ = call_encoder(dec, strict)
+                    rec["reenc"] = re_ if k3 == "ok" else "<%s>" % k3
+            recs.append(rec)
+    finally:
+        set_table("default")
+    return recs
+
+
+def validate_roundtrip_trace(name, records, table, nprocs=None, timeout=3000):
+    import json as _json
+    if not records:
+        return [], []
+    ascii_ok = [i for i, r in enumerate(records) if all(ord(c) < 127 for c in r["smi"])]
+    nprocs = max(1, min(nprocs or NCPU, len(ascii_ok)))
+    work = scratch("rt_%s_" % name)
+    order = sorted(ascii_ok, key=lambda i: -len(records[i]["smi"]))
+    chunks = [[] for _ in range(nprocs)]
+    loads = [0] * nprocs
+    for i in order:
+        k = loads.index(min(loads))
+        chunks[k].append(i)
+        loads[k] += len(records[i]["smi"]) ** 2 // 50 + 20
+    jobs = []
+    for ci, idxs in enumerate(chunks):
+        if not idxs:
+            continue
+        idxs.sort()
+        mod = "MC_%s_%d" % (name, ci)
+        sub = os.path.join(work, "p%d" % ci)
+        os.makedirs(sub)
+        tf = os.path.join(sub, "trace.json")
+        with open(tf, "w") as f:
+            _json.dump([records[i] for i in idxs], f, ensure_ascii=True)
+        with open(os.path.join(sub, "DecParams.tla"), "w") as f:
+            txt = dec_params(table, gen=False, trace=True)
+            txt = txt.replace('KnownSyms == UNION {{Tr[i].inp[j] : j \\in 1..Len(Tr[i].inp)} : '
+                              'i \\in {k \\in 1..Len(Tr) : "inp" \\in DOMAIN Tr[k]}}', "KnownSyms == {}")
+            f.write(txt)
+        with open(os.path.join(sub, mod + ".tla"), "w") as f:
+            f.write(mc_module(mod, extends="TraceRT"))
+
+        def job(mod=mod, sub=sub, idxs=idxs, tf=tf):
+            r = run_tlc(sub, mod, "SPECIFICATION Spec\nCHECK_DEADLOCK FALSE\n", workers=1, timeout=timeout,
+                        heap="3g", env_extra={"TRACE_FILE": tf})
+            r.idxs = idxs
+            return r
+        jobs.append(job)
+    log("roundtrip trace %s: %d records in %d processes" % (name, len(ascii_ok), len(jobs)))
+    results = run_parallel(jobs, max_procs=NCPU)
+    log("roundtrip trace %s done, slowest %.1fs" % (name, max(r.wall for r in results)))
+    events = []
+    for r in results:
+        tlc_ok(r, name)
+        done = [e for e in r.printed if e.get("ev") == "DONE"]
+        if not done or done[0]["n"] != len(r.idxs):
+            raise MachineryError("round-trip trace validation incomplete (%s)\n%s" % (name, r.log[-2500:]))
+        for e in r.printed:
+            if "tid" in e:
+                e = dict(e)
+                e["tid"] = r.idxs[e["tid"] - 1]
+            events.append(e)
+    return results, events
